@@ -160,6 +160,28 @@ def run_batch(R, nets, tag, deadline):
                 R.count("dfs_mirror_equal")
 
 
+@guard
+def impl_helpers(case):
+    from harness import helperlib
+    return {"cases": helperlib.build_cases(case["seed"], case["which"], case["count"])}
+
+
+def run_helper_glue(R, which, count, jobs=4):
+    """the helper functions around the core (reachable_vertices, flow_across_network, capacity_across_cut / convert_bipartite_graph_to_flow_network,
+    positivity_graph) against their Lean mirrors: model coverage outside the property statement, reported as glue (never a verdict)"""
+    from harness.common import lean_query
+    js = [{"seed": R.rng.randrange(10 ** 6), "which": which, "count": count} for _ in range(jobs)]
+    rs = pmap(__name__.split(".")[-1], "impl_helpers", js, deadline=300.0)
+    allc = []
+    for r in rs:
+        if isinstance(r, dict) and "cases" in r:
+            allc += r["cases"]
+        else:
+            R.glue("helpers:" + which, False, {"worker": r})
+    for c, a in zip(allc, lean_query([c["line"] for c in allc])):
+        R.glue("helpers:" + c["tag"], c["real"] == a, {"line": c["line"][:300], "real": c["real"][:200], "model": a[:200]})
+
+
 def corpus():
     path = os.path.join(VERIF, "corpus", "C08.jsonl")
     return [json.loads(l) for l in open(path) if l.strip()] if os.path.exists(path) else []
@@ -182,6 +204,7 @@ def run(R):
         run_batch(R, list(gen_exhaustive3()), "exhaustive3", 120.0)
         for ch in chunks(gen_exhaustive4(), 60000):
             run_batch(R, ch, "exhaustive4", 300.0)
+    run_helper_glue(R, "flow", 600 if R.thorough else 60)
     if R.corr_breaks and not R.violations:
         search(R)
 
